@@ -120,6 +120,32 @@ func TestC07_Fallback(t *testing.T) {
 			db = gen.Load(t, cmds)
 			q, qc, wide = string(rs), "wide-spelling", true
 		}
+		if needle == "" && !longTail && filtered == "" && !wide && rapid.IntRange(0, 11).Draw(t, "whole-text") == 0 {
+			// a terse entry made of words the index drops (single letters, punctuation, stop words), asked
+			// for by its WHOLE text - command, blank, description - in other letter case, or by all of it but
+			// the first / last character: the query is exactly as long as the text that contains it
+			w := rapid.SampledFrom([]string{"x", "y", "q", "!!", "#", "a", "-", "to", "k", "??", "%", "the", "é", "z"})
+			terse := database.Command{Command: w.Draw(t, "whole-cmd"), Description: rapid.SampledFrom([]string{"", "y", "#", "x y", "q", "!", "z z", "to"}).Draw(t, "whole-desc")}
+			if rapid.IntRange(0, 3).Draw(t, "whole-two-words") == 0 {
+				terse.Command += " " + w.Draw(t, "whole-cmd2")
+			}
+			text := terse.Command + " " + terse.Description
+			switch rapid.IntRange(0, 4).Draw(t, "whole-cut") {
+			case 0:
+				text = text[1:]
+			case 1:
+				text = text[:len(text)-1]
+			}
+			text = strings.ToValidUTF8(text, "")
+			if rapid.Bool().Draw(t, "whole-upper") {
+				text = strings.ToUpper(text)
+			}
+			if strings.TrimSpace(text) != "" {
+				cmds = append(cloneCmds(cmds), terse)
+				db = gen.Load(t, cmds)
+				q, qc, wide = text, "whole-text", true
+			}
+		}
 		crowded := ""
 		if needle == "" && !longTail && filtered == "" && !wide && caseNo%150 == 75 {
 			// a big database (beyond any block size a matcher may work in) in which dozens to hundreds of
